@@ -295,7 +295,7 @@ Qed.
 
 Lemma rq_replace_ok e s q : res_ok q (rq_replace e s q).
 Proof.
-  unfold rq_replace. destruct (find_id_z _ _ _) as [k|].
+  unfold rq_replace. destruct (rq_cur q <=? 0)%Z; [apply done_ok; [reflexivity|constructor]|]. destruct (find_id_z _ _ _) as [k|].
   - destruct (rq_cache q); apply done_ok; try reflexivity; repeat constructor.
   - apply done_ok; [reflexivity|constructor].
 Qed.
@@ -329,6 +329,7 @@ Proof.
   unfold rq_read. destruct (negb (rq_drained q)); [apply done_ok; [reflexivity|constructor]|].
   destruct (rq_closed q); [apply done_ok; [reflexivity|constructor]|].
   destruct (rq_len q <=? rq_cur q)%Z; [apply done_ok; [reflexivity|constructor]|].
+  destruct (length pids =? 0)%nat; [apply done_ok; [reflexivity|constructor]|].
   match goal with |- context [rq_read_loop ?a ?b ?c ?d ?e ?l ?acc] =>
     pose proof (rq_read_loop_cmds a b c d e l acc) as H; destruct (rq_read_loop a b c d e l acc) as [a' p] end.
   cbn [fst ra_cmds] in H. specialize (H (Forall_nil _)).
@@ -1001,7 +1002,7 @@ Proof.
 Qed.
 Lemma rq_replace_store e s q : res_store s (rq_replace e s q).
 Proof.
-  unfold rq_replace. destruct (find_id_z _ _ _); [|apply done_store]. destruct (rq_cache q); apply done_store.
+  unfold rq_replace. destruct (rq_cur q <=? 0)%Z; [apply done_store|]. destruct (find_id_z _ _ _); [|apply done_store]. destruct (rq_cache q); apply done_store.
 Qed.
 Lemma rq_remove_store pid s q : res_store s (rq_remove pid s q).
 Proof.
@@ -1011,6 +1012,7 @@ Lemma rq_read_store now pids s q : res_store s (rq_read now pids s q).
 Proof.
   unfold rq_read. destruct (negb (rq_drained q)); [apply done_store|].
   destruct (rq_closed q); [apply done_store|]. destruct (rq_len q <=? rq_cur q)%Z; [apply done_store|].
+  destruct (length pids =? 0)%nat; [apply done_store|].
   destruct (rq_read_loop _ _ _ _ _ _ _) as [a p]. destruct p; apply done_store.
 Qed.
 Lemma rq_read_inflight_store now n s q : res_store s (rq_read_inflight now n s q).
